@@ -71,9 +71,69 @@ def jobs(tier):
                         ('enforced_constraints_restored', 'spu_same_C(self->dist_constr, xt_snapC)'),
                         ('level_closed', 'self->layers.n == 0')],
                assigns='__exc, self->_dists, self->_preds, self->dist_constr, self->layers'))
+    dl_propagate_jobs(out, tier, N, d, CAPS)
     lra_jobs(out, tier)
     sat_jobs(out, tier)
     return out
+
+
+def dl_propagate_jobs(out, tier, N, d, CAPS):
+    """the remaining writers of the logged idl state: propagate(from, to, dist) changes distances/predecessors only through
+    set_dist/set_pred (replaced by their contracts above), propagate(const lit&) logs the enforced constraint of the pair
+    before replacing it.  Both keep the undo-log invariant."""
+    SETD, SETP, PROPE, PROPL = 'smt_idl_theory_set_dist__U__U__I', 'smt_idl_theory_set_pred__U__U__U', 'smt_idl_theory_propagate__U__U__I', 'smt_idl_theory_propagate__lit'
+    REC, LST = 'smt_theory_record__vec_lit', 'smt_idl_value_listener_idl_value_change__U'
+    ABS2 = {'smt::sat_core': ['assigns'], 'smt::theory': ['sat', 'cnfl'],
+            'smt::idl_theory': ['n_vars', '_dists', '_preds', 'dist_constr', 'dist_constrs', 'var_dists', 'layers', 'listening'],
+            'smt::idl_theory::idl_distance': ['b', 'from', 'to', 'dist'], 'smt::idl_value_listener': []}
+    KEEP = [('undo_invariant_kept', 'spu_inv(self)'), ('depth_unchanged', 'self->layers.n == %s' % OLD('self->layers.n'))]
+    c_setd = Contract(requires=['spu_inv(self) && self->listening.n == 0', '*from < XT_N && *to < XT_N', 'self->_dists.e[*from].e[*to] > *dist'],
+                      ensures=[('only_the_entry_changes', 'spu_D_eq_except(%s, self->_dists, *from, *to, %s)' % (OLD('self->_dists'), OLD('*dist')))] + KEEP,
+                      assigns='self->_dists, self->layers')
+    c_setp = Contract(requires=['spu_inv(self)', '*from < XT_N && *to < XT_N'],
+                      ensures=[('only_the_entry_changes', 'spu_P_eq_except(%s, self->_preds, *from, *to, %s)' % (OLD('self->_preds'), OLD('*pred')))] + KEEP,
+                      assigns='self->_preds, self->layers')
+    c_nop = Contract(requires=['1'], ensures=['1'], assigns='')
+    d2 = dict(d, I_BITS=8, U_BITS=8, WIDE_BITS=16, XT_R=3, XT_NV=4, XT_MC=2)
+    caps2 = dict(CAPS, vec_pair_U_U=2 + 4 * N + 2 * N * N, map_pair_U_U_vec_idl_distancep=1, vec_idl_distancep=1, vec_lit=N + 1, vec_us=4, umap_U_idl_distancep=1)
+    EDGE_REQ = ['__exc == 0 && self->n_vars == XT_N && self->listening.n == 0 && self->dist_constrs.n == 0 && self->base_theory.cnfl.n == 0', 'spu_inv(self)',
+                'spa_range(self->_dists)', '*from < XT_N && *to < XT_N && *from != *to && *dist >= -XT_R && *dist <= XT_R', 'self->_dists.e[*from].e[*to] > *dist']
+    HARN = ('void xt_harness(void)\n{\n  xt_init_globals();\n' + HPRE + '\n  struct smt_idl_theory th; th.dist_constrs.n = 0; th.base_theory.cnfl.n = 0; th.listening.n = 0;\n'
+            '  U_t *from; U_t *to; I_t *dist;\n  %s(&th, from, to, dist);\n}\n' % PROPE)
+    out.append(Job('idl.propagate_edge_keeps_undo_log', PROPE, tus=TUS + ['smt/theory.cpp'],
+                   contract=Contract(requires=['__CPROVER_is_fresh(from, sizeof(*from)) && __CPROVER_is_fresh(to, sizeof(*to)) && __CPROVER_is_fresh(dist, sizeof(*dist))'] + EDGE_REQ,
+                                     ensures=[('noexcept', '__exc == 0')] + KEEP + [('enforced_constraints_untouched', 'spu_mC_eq(self->dist_constr, %s)' % OLD('self->dist_constr'))],
+                                     assigns='__exc, self->_dists, self->_preds, self->layers, self->base_theory.cnfl'),
+                   defines=d2, callee_contracts={SETD: c_setd, SETP: c_setp, REC: c_nop, LST: c_nop}, replace=[SETD, SETP, REC, LST], unwind=N + 2, model_unwind=max(2 + 4 * N + 2 * N * N, N * N + 2) + 1,
+                   loop_unwind={6: 2 + 4 * N + 2 * N * N + 2}, spec_headers=SPEC + ['dl_apsp_spec.h'], exceptions=True, caps=caps2, abstract_fields=ABS2, harness=HARN, force_types=FORCE,
+                   timeout=2400, mem_gb=24, mem_est=6, solver='cadical',
+                   bounded='%d time points, weights in [-3, 3], one symbolic open level; no registered undecided constraints (the re-propagation loop is empty)' % N))
+    DD, SATP = 'self->var_dists.e[0].second', 'self->base_theory.sat'
+    F, T, K = '%s->from' % DD, '%s->to' % DD, '%s->dist' % DD
+    import os
+    DBG = ['spu_shape_D(self->_dists) && spu_shape_P(self->_preds)', 'spu_wf_mC(self->dist_constr)', 'spu_nonnull_C(self->dist_constr)', 'self->layers.n <= 1',
+           'self->layers.n == 0 || (spu_wf_mD(self->layers.e[0].old_dists) && spu_wf_mP(self->layers.e[0].old_preds))', 'self->layers.n == 0 || spu_wf_mC(self->layers.e[0].old_constrs)',
+           'self->layers.n == 0 || spu_undo_D(self->layers.e[0].old_dists, self->_dists, xt_snapD)', 'self->layers.n == 0 || spu_undo_P(self->layers.e[0].old_preds, self->_preds, xt_snapP)',
+           'self->layers.n == 0 || spu_undo_C(self->layers.e[0].old_constrs, self->dist_constr, xt_snapC)'] if os.environ.get('C08_DBG') else []
+    c_edge = Contract(requires=DBG + EDGE_REQ, ensures=[('noexcept', '__exc == 0')] + KEEP + [('enforced_constraints_untouched', 'spu_mC_eq(self->dist_constr, %s)' % OLD('self->dist_constr'))],
+                      assigns='__exc, self->_dists, self->_preds, self->layers, self->base_theory.cnfl')
+    out.append(Job('idl.propagate_lit_keeps_undo_log', PROPL, tus=TUS + ['smt/theory.cpp'],
+                   contract=Contract(
+                       # is_fresh clauses first: in a requires clause they ASSIGN the pointer, so every predicate reading it must come later
+                       requires=['__CPROVER_is_fresh(self, sizeof(*self)) && __CPROVER_is_fresh(p, sizeof(*p)) && __CPROVER_is_fresh(%s, sizeof(*%s))' % (SATP, SATP),
+                                 'self->dist_constr.n <= 2',
+                                 '(self->dist_constr.n < 1 || (__CPROVER_is_fresh(self->dist_constr.e[0].second, sizeof(*%s)) && (self->dist_constr.e[0].second->b.x >> 1) < XT_NV))' % DD,
+                                 '(self->dist_constr.n < 2 || (__CPROVER_is_fresh(self->dist_constr.e[1].second, sizeof(*%s)) && (self->dist_constr.e[1].second->b.x >> 1) < XT_NV))' % DD] + EDGE_REQ[:3] +
+                       ['self->var_dists.n == 1 && self->var_dists.e[0].first == (p->x >> 1) && __CPROVER_is_fresh(%s, sizeof(*%s))' % (DD, DD),
+                        '%s < XT_N && %s < XT_N && %s != %s && %s >= -XT_R && %s < XT_R && %s->b.x == (U_t)(((p->x >> 1) << 1) + 1)' % (F, T, F, T, K, K, DD),
+                        'spl_assigns_wf(%s->assigns) && (p->x >> 1) < XT_NV && (p->x >> 1) >= 1 && spl_value(%s->assigns, *p) == SPL_TRUE' % (SATP, SATP),
+                        'spa_walk_ok(self->_preds, %s, %s) && spa_walk_ok(self->_preds, %s, %s)' % (T, F, F, T)],
+                       ensures=[('noexcept', '__exc == 0')] + KEEP,
+                       assigns='__exc, self->_dists, self->_preds, self->layers, self->base_theory.cnfl, self->dist_constr'),
+                   defines=d2, callee_contracts={PROPE: c_edge}, replace=[PROPE], unwind=N + 2, model_unwind=N * N + 3,
+                   spec_headers=SPEC + ['dl_apsp_spec.h', 'dl_lit_spec.h'], exceptions=True, caps=caps2, abstract_fields=ABS2, harness_pre=HPRE, force_types=FORCE,
+                   timeout=2400, mem_gb=24, mem_est=6, solver='cadical',
+                   bounded='%d time points, weights in [-3, 3], one symbolic open level, <= 2 enforced constraints before the call' % N))
 
 
 def lra_jobs(out, tier):
